@@ -183,17 +183,18 @@ func families(tier string) []family {
 			return b.String(), "f_§()", fmt.Sprintf("%d\n", t)
 		}},
 		{name: "general-constants", limit: 256, ns: around([]int{128, 256}, -4, 4), gen: func(n int) (string, string, string) {
+			// general constants are the constants that live in no typed table: complex numbers
 			var b strings.Builder
-			b.WriteString("func f_§() int {\n\tt := 0\n\tfor i, v := range []interface{}{")
+			b.WriteString("func f_§() int {\n\tt := 0\n\tfor i, v := range []complex128{")
 			t := 0
 			for i := 0; i < n; i++ {
-				if i%16 == 0 {
+				if i%8 == 0 {
 					b.WriteString("\n\t\t")
 				}
-				fmt.Fprintf(&b, "%d, ", 1000+i)
-				t = t*31 + (i+1)*(1000+i)
+				fmt.Fprintf(&b, "%d + %di, ", 1000+i, i%7+1)
+				t = t*31 + (i+1)*(1000+i) + i%7 + 1
 			}
-			fmt.Fprintf(&b, "\n\t} {\n\t\tt = t*31 + (i+1)*v.(int)\n\t}\n\treturn t\n}\n")
+			b.WriteString("\n\t} {\n\t\tt = t*31 + (i+1)*int(real(v)) + int(imag(v))\n\t}\n\treturn t\n}\n")
 			return b.String(), "f_§()", fmt.Sprintf("%d\n", t)
 		}},
 		{name: "types", limit: 256, ns: around([]int{64, 85, 128, 256}, -4, 4), gen: func(n int) (string, string, string) {
